@@ -200,9 +200,9 @@ ADDED4 = {
  "C19": " Round 8: Trace_Sigint JoinLoadStopped: a real SIGINT while a joined file of 2.5 million lines is loading -- the read offset of the joined file stops within a few read-ahead buffers, no input line is processed, nothing is printed, status 0.",
  "C20": " Round 8: a minus sign in front of literals followed by casts / in comparisons / after another minus under every separator (base statement 15); Cli.tla: the text of -c / --command-file reaches the parser as given (a `;` inside a comment, a final `;` and line break).",
 }
-for _pid, _t in ADDED4.items():
-    ADDED2[_pid] = ADDED2.get(_pid, "") + _t
 for _pid, _t in ADDED3.items():
+    ADDED2[_pid] = ADDED2.get(_pid, "") + _t
+for _pid, _t in ADDED4.items():
     ADDED2[_pid] = ADDED2.get(_pid, "") + _t
 for _pid, _t in ADDED.items():
     CLAIMED[_pid]["text"] += _t
